@@ -136,6 +136,8 @@ class BuiltinMixin(object):
     st.assume(ForAllT([x], z3.Implies(pred(x), z3.And(idx(x) >= 0, idx(x) < ln, itf(idx(x)) == x))))
     if isinstance(src, VRef) and src.ty.kind in ('set', 'dict'):
       st.assume(ln == st.heap.get('card')(src.t))
+    j = z3.Const(fresh_name('j'), I)
+    st.assume(ForAllT([i, j], z3.Implies(z3.And(i >= 0, i < j, j < ln), itf(i) != itf(j))))
     r.distinct = True
     return r
 
@@ -171,6 +173,10 @@ class BuiltinMixin(object):
       raise Unsupported('sorted key must be a lambda')
     ka, kb = key_of(itf(i)), key_of(itf(j))
     st.assume(ForAllT([i, j], z3.Implies(z3.And(inr(i), inr(j), i < j), self.key_le(ka, kb, st))))
+    if getattr(seq, 'distinct', False):
+      # a permutation of a duplicate-free sequence is duplicate-free
+      st.assume(ForAllT([i, j], z3.Implies(z3.And(inr(i), inr(j), i < j), itf(i) != itf(j))))
+      r.distinct = True
     r.sorted_key = key_of
     return r
 
